@@ -45,6 +45,8 @@ import (
 //   c14 all <thr> <client> <n> <path> <hex>   the same request to n servers one after the other (Client.SendToAll)
 //   c14 reg <ws|rest:<METHOD>:<min>:<max>> <sig>   a registration attempt with the function <sig> of c14reg.go
 //   c14 direct <path> <hex>   Service.ProcessClientRequest of the first server called directly (no websocket)
+//   c14 cstate <client>       the paths for which the onet.Client holds a connection and a lock object
+//                             (accessor VerifC14ClientState; only where no request of that client is under way)
 //   c14 barrier
 //   c14 procs <n>      GOMAXPROCS of the (sub-)process running the server and the clients
 //   c14 calls
@@ -189,6 +191,26 @@ func (e *c14env) doPar(tk []string) string {
 		return "ok pair"
 	}
 	return fmt.Sprintf("mismatch node=%s reply-of=%s nonce=%d", node.Address, got.Addr, got.Nonce)
+}
+
+// doCState reads the client object's maps for the first server.
+func (e *c14env) doCState(name string) string {
+	si := e.srv.ServerIdentity
+	if strings.HasPrefix(name, "u") {
+		e.mu.Lock()
+		if e.noURL != nil {
+			si = e.noURL
+		}
+		e.mu.Unlock()
+	}
+	conns, locks := e.wsClient(name).VerifC14ClientState(si)
+	show := func(l []string) string {
+		if len(l) == 0 {
+			return "-"
+		}
+		return strings.Join(l, ",")
+	}
+	return "conns=" + show(conns) + " locks=" + show(locks)
 }
 
 // doDirect calls ProcessClientRequest of the first server's service instance.
@@ -725,6 +747,9 @@ func c14exec(c *h.Ctx, cs *h.Case) {
 				order = append(order, tk[2])
 			}
 			threads[tk[2]] = append(threads[tk[2]], c14job{i, tk})
+		case len(tk) == 3 && tk[0] == "c14" && tk[1] == "cstate":
+			flush()
+			cs.Impl[i] = e.doCState(tk[2])
 		case len(tk) == 4 && tk[0] == "c14" && tk[1] == "reg":
 			flush()
 			cs.Impl[i] = e.doReg(tk)
@@ -890,6 +915,10 @@ func c14owed(tk []string, kept *[]byte) (kind, want string, called bool) {
 	return reply(hh.tag, a, sv, bv)
 }
 
+func c14keeps(client string) bool {
+	return strings.HasPrefix(client, "k") || strings.HasPrefix(client, "q") || strings.HasPrefix(client, "p")
+}
+
 func c14obsClass(tk []string, obs string) string {
 	f := strings.Fields(obs)
 	if len(f) == 0 {
@@ -931,6 +960,14 @@ func c14oracle(cs *h.Case) {
 				}
 			} else if obs != "ok pair" {
 				cs.Fail("c14:wrong-reply:parallel", fmt.Sprintf("request %d %q: the reply handed back is not the reply of the node handed back: %s", i, op, obs))
+			}
+			continue
+		}
+		if len(tk) == 3 && tk[1] == "cstate" {
+			classes["cstate"] = true
+			// between requests a single-use client holds no connection; whatever happened before
+			if !c14keeps(tk[2]) && !strings.HasPrefix(obs, "conns=- ") {
+				cs.Fail("c14:client-state", fmt.Sprintf("op %d %q: a single-use client holds a connection between requests: %s", i, op, obs))
 			}
 			continue
 		}
@@ -1331,6 +1368,15 @@ func (g *c14gen) finish(cs *h.Case) {
 func c14genCases(c *h.Ctx, yield func(*h.Case)) {
 	g := &c14gen{c: c}
 	r := c.Rng
+	// cstate appends, behind a barrier, the reading of the named clients' connection and lock maps;
+	// only for clients whose final state does not depend on the interleaving (used by one thread, or
+	// single-use)
+	cstate := func(cs *h.Case, clients ...string) {
+		cs.Ops = append(cs.Ops, "c14 barrier")
+		for _, cl := range clients {
+			cs.Ops = append(cs.Ops, "c14 cstate "+cl)
+		}
+	}
 	emit := func(cs *h.Case) {
 		g.finish(cs)
 		c.Count("class=" + cs.Class)
@@ -1371,7 +1417,10 @@ func c14genCases(c *h.Ctx, yield func(*h.Case)) {
 		for _, s := range []string{"one", "fail", "two", "panic", "three", "nil", "four"} {
 			cs.Ops = append(cs.Ops, "c14 ws t1 k1 C14Echo "+enc(int64(len(s)), s))
 		}
-		cs.Ops = append(cs.Ops, "c14 ws t1 k1 C14Echo ff", "c14 ws t1 k1 C14Echo "+enc(9, "five"), "c14 ws t1 k1 C14Echo 0a", "c14 ws t1 k1 C14Echo "+enc(10, "six"))
+		cs.Ops = append(cs.Ops, "c14 ws t1 k1 C14Echo ff", "c14 ws t1 k1 C14Echo "+enc(9, "five"), "c14 ws t1 k1 C14Echo 0a")
+		cstate(cs, "k1") // right after a failed request: the connection is forgotten, the lock object stays
+		cs.Ops = append(cs.Ops, "c14 ws t1 k1 C14Echo "+enc(10, "six"))
+		cstate(cs, "k1")
 		emit(cs)
 	}
 	{
@@ -1395,6 +1444,7 @@ func c14genCases(c *h.Ctx, yield func(*h.Case)) {
 		}
 		cs.Ops = append(cs.Ops, "c14 ws t1 q1 C14Echo "+enc(1, "before"), "c14 ws t1 q1 C14Echo "+enc(2, "slow"),
 			"c14 ws t1 q1 C14Echo "+enc(3, "after"), "c14 ws t1 q1 C14Echo "+enc(4, "again"))
+		cstate(cs, "q1")
 		emit(cs)
 	}
 
@@ -1432,6 +1482,7 @@ func c14genCases(c *h.Ctx, yield func(*h.Case)) {
 			"c14 ws t1 p1 C14Echo ff", "c14 ws t1 u1 C14Swap "+enc(6, "panic"), "c14 ws t1 u1 C14Echo "+enc(7, "seven"),
 			"c14 all t1 k1 3 C14Echo "+enc(8, "eight"), "c14 all t1 o1 2 C14Swap "+enc(9, "fail"), "c14 all t1 k1 3 C14Both "+enc(10, "ten"),
 			"c14 all t1 k1 2 Nope "+enc(11, "x"), "c14 all t1 k1 3 C14Echo 0a")
+		cstate(cs, "x1", "u1", "p1", "k1", "o1")
 		emit(cs)
 	}
 
@@ -1447,6 +1498,7 @@ func c14genCases(c *h.Ctx, yield func(*h.Case)) {
 			"c14 ws t1 o1 C14Both "+enc(3, "three"), "c14 ws t1 k1 C14Both "+enc(4, "four"), "c14 rest t1 o1 POST json C14Both - {}",
 			"c14 ws t1 k2 C14Post "+enc(5, "five"), "c14 rest t1 k1 POST json C14Echo - A=6", "c14 ws t1 k1 C14Both "+enc(7, "fail"),
 			"c14 rest t1 k1 POST json C14Both - S="+hx("panic"), "c14 ws t1 k1 C14Both "+enc(8, "eight"))
+		cstate(cs, "k1", "o1", "k2")
 		emit(cs)
 	}
 
@@ -1508,7 +1560,11 @@ func c14genCases(c *h.Ctx, yield func(*h.Case)) {
 		cl := []string{"k1", "o1"}[r.Intn(2)]
 		for i, m := 0, 4+r.Intn(14); i < m; i++ {
 			wsop(cs, "t1", cl, g.wsPath(), -1)
+			if r.Intn(6) == 0 {
+				cstate(cs, cl)
+			}
 		}
+		cstate(cs, cl)
 		emit(cs)
 
 		// sequences of REST requests to one handler over one kept connection, later ones omit fields
@@ -1596,6 +1652,7 @@ func c14genCases(c *h.Ctx, yield func(*h.Case)) {
 			c.Count("client:" + cl[:1])
 			cs.Ops = append(cs.Ops, fmt.Sprintf("c14 ws t1 %s C14Key %s", cl, h.Hex(buf)))
 		}
+		cstate(cs, "oalice", "kcarol")
 		emit(cs)
 
 		// a handler that retains a []byte field of its argument: later requests on the same kept
@@ -1613,6 +1670,7 @@ func c14genCases(c *h.Ctx, yield func(*h.Case)) {
 			c.Count("client:" + cl[:1])
 			cs.Ops = append(cs.Ops, fmt.Sprintf("c14 ws t1 %s C14Keep %s", cl, h.Hex(buf)))
 		}
+		cstate(cs, cl)
 		emit(cs)
 
 		if it%8 == 0 {
@@ -1705,6 +1763,7 @@ func c14genCases(c *h.Ctx, yield func(*h.Case)) {
 			for i, m := 0, 2+r.Intn(3); i < m; i++ {
 				cs.Ops = append(cs.Ops, "c14 ws t1 q1 "+path+" "+enc(g.okstr()))
 			}
+			cstate(cs, "q1")
 			emit(cs)
 		}
 
@@ -1719,6 +1778,7 @@ func c14genCases(c *h.Ctx, yield func(*h.Case)) {
 			}
 			wsop(cs, fmt.Sprintf("t%d", r.Intn(nthr)), "o0", "C14Echo", hint)
 		}
+		cstate(cs, "o0") // whatever the interleaving: no connection left, one lock object
 		emit(cs)
 
 		if it%3 == 0 {
